@@ -12,13 +12,14 @@ for i in sorted(os.listdir(S)):
     def load(n):
         p = os.path.join(d, n)
         return json.load(open(p)) if os.path.exists(p) and os.path.getsize(p) > 2 else None
-    before, after, full = load("result_before.json"), load("result_after.json"), load("result.json")
+    before, after, full, final = load("result_before.json"), load("result_after.json"), load("result.json"), load("result_final.json")
     own = i.split("-")[0]
-    wave = 1 if i.endswith(("-1", "-2")) else 2
+    k = int(i.split("-")[1])
+    wave = 1 if k <= 2 else 2 if k <= 4 else (3 if own == "C19" else 4)
     touched = sorted(set(re.findall(r"^\+\+\+ b/(\S+)", open(os.path.join(d, "patch.diff")).read(), re.M)))
     def caught(r):
         return None if r is None else sorted(r.get("caught_by", []))
-    ref = full or after or before or {}
+    ref = final or full or after or before or {}
     meta = {
         "id": i, "breaks_property": own, "wave": wave, "origin": "independent sub-agent given only the property text and a scratch worktree",
         "files_changed": touched,
@@ -28,16 +29,27 @@ for i in sorted(os.listdir(S)):
         "what_i_ran": "tools/eval_seeded.py <dir> (scratch worktree of /repo HEAD + git apply, tools/run_baseline.sh there, demo on both trees, "
                       "./check <IDs> --tier quick with TW_VERIF_SRC=<worktree>/src, replay of the first violation on both trees)",
         "own_check_before_strengthening": caught(before), "own_check_after_strengthening": caught(after) if after else caught(full),
+        "own_check_final": None if final is None else {c: {"exit": e["exit"], "clauses": e.get("clauses", [])[:6], "replay_fails_on_changed": e.get("replay_fails_on_changed"),
+                                                         "replay_passes_on_clean": e.get("replay_passes_on_clean"), "first_counterexample": e.get("first_counterexample")}
+                                                     for c, e in final.get("checks", {}).items()},
         "related_checks_final": {c: {"exit": e["exit"], "clauses": e.get("clauses", [])[:4], "replay_fails_on_changed": e.get("replay_fails_on_changed"),
                                      "replay_passes_on_clean": e.get("replay_passes_on_clean")} for c, e in (full or {}).get("checks", {}).items()},
     }
     json.dump(meta, open(os.path.join(d, "meta.json"), "w"), indent=1)
     fin = full or after or {}
+    allc = sorted(set((caught(fin) or []) + (caught(final) or []) + (caught(after) or [])))
+    note = ""
+    if i == "C20-5":
+        note = "neutralised by repair D11 (demo passes on the repaired tree)"
     rows.append((i, own, wave, ", ".join(touched).replace("src/traffic_weaver/", ""), "yes" if caught(before) else "no",
-                 ", ".join(caught(fin) or []) or "-", ", ".join((fin.get("harness_errors") or [])) or "-"))
+                 ("yes" if own in (caught(final) or []) else ("-" if final is None else "NO")), ", ".join(allc) or "-",
+                 ", ".join((fin.get("harness_errors") or [])) or "-", note))
 with open(os.path.join(S, "README.md"), "w") as f:
     f.write("# Seeded changes (independent sub-agents; each breaks one property, compiles, keeps the pinned suite green)\n\n")
-    f.write("| id | property | wave | files | caught by own check before strengthening | caught by (final, related checks) | harness errors |\n|---|---|---|---|---|---|---|\n")
+    f.write("`own check, before` = the property's own quick check as it was when the change arrived; `own check, final` = the final machinery "
+            "(tools/eval_final.sh); `caught by` = union over the own check and the related-check matrix (checks of all properties whose anchored "
+            "files the patch touches; run for waves 1-2 with the machinery of that time).\n\n")
+    f.write("| id | property | wave | files | own check, before | own check, final | caught by | harness errors (exit 2) in related checks | note |\n|---|---|---|---|---|---|---|---|---|\n")
     for r in rows:
-        f.write("| %s | %s | %d | %s | %s | %s | %s |\n" % r)
+        f.write("| %s | %s | %d | %s | %s | %s | %s | %s | %s |\n" % r)
 print(len(rows), "meta files")
